@@ -52,6 +52,9 @@ Proof.
   intro H. pose proof (bnew_Some _ _ _ H) as E. subst Z. unfold valid. cbn [lower upper]. exact H.
 Qed.
 
+Lemma bnew_spec l u Z : bnew l u = Some Z -> Z = {| lower := l; upper := u |} /\ valid Z.
+Proof. intro H. split; [eapply bnew_Some|eapply bnew_valid]; exact H. Qed.
+
 (* the shapes a valid bound can have *)
 Lemma valid_inv X : valid X ->
   match lower X, upper X with
@@ -222,6 +225,10 @@ Proof.
     repeat (replace (l1 + - 0) with l1 by ring); repeat (replace (u1 + 0) with u1 by ring);
     reflexivity.
 Qed.
+Theorem bcontains_spec X v a :
+  (bmem v X = true -> 0 <= a -> bcontains X (Fin v) (Fin a) = true) /\
+  bcontains X (Fin v) (Fin 0) = bmem v X.
+Proof. split; [apply bcontains_mem|apply bcontains_zero]. Qed.
 (* exact meaning on finite data: lower - atol <= value <= upper + atol *)
 Theorem bcontains_finite l u v a :
   bcontains {| lower := Fin l; upper := Fin u |} (Fin v) (Fin a) = true <->
@@ -269,7 +276,7 @@ Proof.
   unfold bintersection. apply bnew_enclose;
     destruct X as [[|l1| |] [|u1| |]], Y as [[|l2| |] [|u2| |]]; ecbn;
     try contradiction; try reflexivity; b2p;
-    repeat match goal with |- context [qleb ?a ?b] => destruct (qleb a b) eqn:? end;
+    repeat match goal with |- context [if qleb ?a ?b then _ else _] => destruct (qleb a b) eqn:? end;
     ecbn; try reflexivity; qarith.
 Qed.
 Theorem bintersection_inside X Y Z x :
@@ -280,6 +287,6 @@ Proof.
   unfold bintersection in E. rewrite (bnew_mem_iff _ _ _ _ E) in H. clear E.
   destruct X as [[|l1| |] [|u1| |]], Y as [[|l2| |] [|u2| |]]; ecbn;
     try contradiction;
-    repeat match goal with H : context [qleb ?a ?b] |- _ => destruct (qleb a b) eqn:? end;
+    repeat match goal with H : context [if qleb ?a ?b then _ else _] |- _ => destruct (qleb a b) eqn:? end;
     ecbn; b2p; split; p2b; try reflexivity; qarith.
 Qed.
